@@ -173,6 +173,22 @@ theorem db_commit_writes_root (s : Db.State) (root : Db.H32) (hm : (Db.find s.me
     root ∈ (Db.commit s root).disk :=
   Db.commit_writes s root root (Db.root_mem_reach s.mem root hm s.mem.length)
 
+/-- **Commit writes children before parents**, so a crash between two of its (non-atomic, 100 KB) batch
+writes loses nothing that is visible: at every point of the write sequence of `Database.Commit(root)` the
+children of the node being written are already written or already on disk — every prefix of the sequence,
+together with the disk, is closed under children.  Hypotheses: the cached nodes are acyclic through the
+children relation (a rank bounded by the cache size decreases from each cached node to its cached children;
+true of hash-linked nodes unless a hash cycle exists) and every child of a cached node is cached or on disk;
+both are evaluated by the compiled model on every sampled Database state (`ordered-closed` in the state
+dump), and the write ORDER of the Go `Commit`/`Cap` is compared with the model's. -/
+theorem db_commit_children_first (s : Db.State) (root : Db.H32) (rk : Db.H32 → Nat)
+    (hrk : ∀ n ∈ s.mem, ∀ k ∈ n.kids, (Db.find s.mem k).isSome → rk k < rk n.hash)
+    (hbound : ∀ x, rk x ≤ s.mem.length)
+    (hclosed : ∀ n ∈ s.mem, ∀ k ∈ n.kids, (Db.find s.mem k).isSome ∨ k ∈ s.disk) :
+    ∀ i x, (Db.commitOrder s root)[i]? = some x → ∀ n, Db.find s.mem x = some n →
+      ∀ k ∈ n.kids, k ∈ (Db.commitOrder s root).take i ∨ k ∈ s.disk :=
+  Db.commit_children_first s root rk hrk hbound hclosed
+
 /-- the full garbage-collection statement (not proved; sampled by the correspondence check and the
 snapshot oracle): under the contract of the API — every inserted node's children are readable when it
 is inserted, `Dereference(r)` releases an earlier `Reference(r)` — every node reachable from a root that
@@ -231,6 +247,13 @@ example : Db.reach (dbS.mem.length + 1) dbS.mem [0xbb] [] = [[0xaa], [0xbb]] := 
 example : [0xaa] ∈ (([Db.DbOp.dereference [0xbb], .cap 0].foldl Db.apply (Db.commit dbS [0xbb])).disk) :=
   db_committed_is_permanent dbS [0xbb] [0xaa] (by decide) _
 example : (Db.find dbS.mem [0xbb]).isSome = true := by decide
+-- the hypotheses of `db_commit_children_first` hold of it (rank: leaf 0, root 1), and the order is leaf, root
+example : ∀ i x, (Db.commitOrder dbS [0xbb])[i]? = some x → ∀ n, Db.find dbS.mem x = some n →
+    ∀ k ∈ n.kids, k ∈ (Db.commitOrder dbS [0xbb]).take i ∨ k ∈ dbS.disk :=
+  db_commit_children_first dbS [0xbb] (fun x => if x = [0xbb] then 1 else 0) (by decide)
+    (by intro x; show (if x = [0xbb] then 1 else 0) ≤ 2; split <;> omega) (by decide)
+example : Db.commitOrder dbS [0xbb] = [[0xaa], [0xbb]] := by decide
+example : Db.orderedClosed dbS = true := by decide
 
 end Examples
 
